@@ -111,3 +111,100 @@ def run_c16(tier):
                     'bounds': {'configurations': per}, 'samples': samples or ['(none)']}
     rep.assumptions = ['write failures inside start() (tiff header, metadata.json) are only judged for crashes and descriptor discipline: the property asks for the report by the end of a failing append', 'EIO / EACCES stand for every errno']
     rep.finish()
+
+
+def run_c12(tier):
+    """16 installations: every subset of {common driver, stub1, stub2, library without entry point} next to a copy of the
+    executable (the loader resolves libraries relative to the module that contains platform.c)."""
+    import itertools, shutil
+    rep = C.Report('C12', tier)
+    b = C.make('engines/seqx/Makefile', 'plain')
+    src = f'{b}/c12'
+    root = f'{b}/c12-installs'
+    shutil.rmtree(root, ignore_errors=True)
+    libs = [('common', 'libacquire-driver-common.so'), ('stub1', 'libacquire-driver-hdcam.so'), ('stub2', 'libacquire-driver-zarr.so'), ('noentry', 'libacquire-driver-egrabber.so')]
+    maxlen_full = 4 if tier == 'thorough' else 3
+    cmds, names = [], []
+    for mask in range(16):
+        d = f'{root}/{mask:02d}'
+        os.makedirs(d)
+        shutil.copy(f'{src}/c12_select', f'{d}/c12_select')
+        present = []
+        for i, (n, target) in enumerate(libs):
+            if mask >> i & 1:
+                shutil.copy(f'{src}/{n}.so', f'{d}/{target}')
+                present.append(n)
+        full = mask in (15, 1, 7)
+        cmds.append([f'{d}/c12_select', '--maxlen', str(maxlen_full if full else 2)])
+        names.append('+'.join(present) or '(no driver library)')
+    res = C.run_parallel(cmds, timeout=C.deadline_s(3000 if tier == 'thorough' else 600))
+    tot, per, samples, ex = {}, [], [], True
+    for name, cmd, (rc, so, se) in zip(names, cmds, res):
+        try:
+            d = json.loads(so)
+        except Exception:
+            rep.violation('C12:crash', f'c12_select with libraries [{name}] ended with status {rc} without a verdict (crash or escaping exception): {(so[-200:] + se[-300:])}', {'engine': 'seqx/c12_select', 'libraries': name, 'cmd': ' '.join(cmd)})
+            ex = False
+            continue
+        for v in d.pop('violations'):
+            rep.violation(f"C12:{v['clause']}", f"{v['detail']} [{v['count']} calls; libraries: {name}] {v['spec']}", {'engine': 'seqx/c12_select', 'libraries': name, 'spec': v['spec'], 'cmd': ' '.join(cmd)})
+        samples += [f'[{name}] {s}' for s in d.pop('samples', [])[:3]]
+        per.append({'libraries_present': name, **{k: v for k, v in d.items() if isinstance(v, (int, float, bool))}})
+        for k, v in d.items():
+            if isinstance(v, int) and not isinstance(v, bool):
+                tot[k] = tot.get(k, 0) + v
+    shutil.rmtree(root, ignore_errors=True)
+    rep.coverage = {'states': tot.get('patterns', 0) or 1, 'transitions': tot.get('select_calls', 0) or 1, 'traces_validated_against_impl': tot.get('select_calls', 0), 'exhaustive': ex,
+                    'rule': 'for each of the 16 subsets of optional driver libraries: enumerate, get every index 0..count+2, open every enumerated identifier, select with every DeviceKind value 0..7, 100, -1, and with every byte string up to the length over {r a w t . * + ? | ( ) [ ] \\\\ - : space NUL R} plus whole-name / prefix / suffix / case-flipped / NUL-padded / escaped / 255-byte variants of every enumerated name; strong oracle: first enumerated device of the kind whose whole name matches per an independent Thompson-NFA matcher; weak oracle outside the matcher\'s subset',
+                    'events': {k: tot.get(k, 0) for k in ('select_calls', 'judged_by_reference_matcher', 'weak_oracle_only', 'get_calls', 'devices_opened', 'devices_enumerated')},
+                    'bounds': {'configurations': per}, 'samples': samples[:12] or ['(none)']}
+    rep.assumptions = ['patterns longer than the bound are not enumerated (the property quantifies over all strings up to 255 bytes)', 'the reference matcher covers literals, ., classes, \\d\\s\\w and identity escapes of punctuation, * + ? (lazy too), |, groups; everything else is judged by the weak oracle']
+    rep.finish()
+
+
+def run_c17(tier):
+    """part (a): configuration/sequence sweep under AddressSanitizer, both bin2 variants, 8 shards each;
+    part (b): re-configuration while streaming under the controlled scheduler (vsched, electric-fence buffers)."""
+    from . import rt
+    rep = C.Report('C17', tier)
+    p = subprocess.run(['make', '-s', '-j', str(C.NPROC), '-f', f'{C.V}/engines/seqx/Makefile', f'REPO={C.REPO}', 'FLAVOUR=asan', 'c17'], stdout=subprocess.PIPE, stderr=subprocess.STDOUT, text=True)
+    if p.returncode:
+        print(p.stdout[-4000:]); print('BUILD-FAILED'); raise SystemExit(2)
+    b = C.bdir('asan')
+    nsh = 8
+    cmds = [[f'{b}/c17_simcam.{v}', '--tier', tier, '--shard', f'{i}/{nsh}'] for v in ('avx2', 'plain') for i in range(nsh)]
+    res = C.run_parallel(cmds, timeout=C.deadline_s(3000 if tier == 'thorough' else 600))
+    tot, samples, per, ex = {}, [], [], True
+    for cmd, (rc, so, se) in zip(cmds, res):
+        try:
+            d = json.loads(so)
+        except Exception:
+            rep.violation('C17:engine-crash', f'{" ".join(cmd)} ended with status {rc} without a verdict: {(so[-200:] + se[-300:])}', {'engine': 'seqx/c17_simcam', 'cmd': ' '.join(cmd)})
+            ex = False
+            continue
+        for v in d.pop('violations'):
+            rep.violation(f"C17:{v['clause']}", f"{v['detail']} [{v['count']} sequences, {d['variant']}] configuration sequence (kind,binning,type,w,h,ox,oy): {v['spec']}",
+                          {'engine': 'seqx/c17_simcam', 'spec': v['spec'], 'variant': d['variant'], 'replay_cmd': f"ASAN_OPTIONS=halt_on_error=0:detect_leaks=0:log_path=stderr {cmd[0]} --replay '{v['spec']}'"})
+        samples += d.pop('samples', [])[:1]
+        for k in ('runs', 'asan_reports'):
+            tot[k] = tot.get(k, 0) + d[k]
+        tot['configurations'] = d['configurations']; tot['sequences'] = d['sequences']
+    # part (b)
+    exe = rt.build_rt('simcam_main')
+    cfgs = [rt.cfg('c17r', 'D2', w=8, h=8, w2=64, h2=64, type2=1, kind=0), rt.cfg('c17r', 'D2', w=64, h=64, binning=2, w2=8, h2=8, binning2=1, kind=1),
+            rt.cfg('c17r', 'D2', w=8, h=8, binning=2, w2=64, h2=64, kind=0), rt.cfg('c17r', 'D2', w=64, h=64, w2=1, h2=1, kind=2, type2=4),
+            rt.cfg('c17r', 1, w=8, h=8, w2=64, h2=64, kind=0)]
+    if tier == 'thorough':
+        cfgs += [rt.cfg('c17r', 'D3', **c['params']) for c in cfgs[:4]] + [rt.cfg('c17r', 2, w=8, h=8, w2=64, h2=64, kind=0)]
+    rep_b = C.Report('C17', tier)
+    rt.run_cfgs(rep_b, exe, cfgs, C.deadline_s(1200 if tier == 'thorough' else 300), 're-configuration while streaming')
+    for v in rep_b.violations:
+        rep.violation(v['fingerprint'], v['what'], v['replay'])
+    cb = rep_b.coverage
+    rep.coverage = {'states': (tot.get('sequences', 0) * 2 or 1) + cb['states'], 'transitions': (tot.get('runs', 0) or 1) + cb['transitions'], 'traces_validated_against_impl': tot.get('runs', 0) + cb['executions'],
+                    'exhaustive': ex and cb['exhaustive'],
+                    'rule': 'part (a): kinds {random, sin, empty} x binning {1,2,4,8} x 8 sample types x boundary shapes {1,2,3,31,32,33,63,64,65} (+ 1023..1025, 8191..8193 for u8/u16) x offsets, each alone and in re-configuration pairs with five partner configurations, set/start/short-buffer get_frame/2x get_frame/stop per configuration, under AddressSanitizer, for simulated.camera.c built with bin2.avx2.c and with bin2.plain.c; part (b): set() while the streamer renders and a frame call is pending, all schedules within the bound, camera buffers on electric-fence pages',
+                    'part_a': {**tot, 'variants': ['bin2.avx2', 'bin2.plain']}, 'part_b': {k: cb[k] for k in ('executions', 'states', 'transitions', 'exhaustive')},
+                    'bounds': {'configurations': cb['bounds']['configurations']}, 'samples': (samples[:6] + cb['samples'][:3]) or ['(none)']}
+    rep.assumptions = ['shapes are enumerated at the listed boundary values, not all of 1..8192', 'part (a) runs free (real threads, real time): it decides configuration-dependent properties only', 'ASan is the memory oracle of part (a); PROT_NONE pages of part (b)']
+    rep.finish()
